@@ -8,6 +8,7 @@ import (
 	"os/exec"
 	"runtime"
 	"sync"
+	"time"
 )
 
 // ShardFuncs are check bodies that need the real ClusterContext (process-global singletons): they are run in worker
@@ -54,7 +55,15 @@ func runSharded(name, tier string, n int) *CustomResult {
 			cmd.Env = append(os.Environ(), "GOMAXPROCS=2")
 			var stdout, stderr bytes.Buffer
 			cmd.Stdout, cmd.Stderr = &stdout, &stderr
-			if err := cmd.Run(); err != nil {
+			// a shard that does not finish is a harness error (never a silent hang of the check)
+			timer := time.AfterFunc(20*time.Minute, func() {
+				if cmd.Process != nil {
+					_ = cmd.Process.Kill()
+				}
+			})
+			err := cmd.Run()
+			timer.Stop()
+			if err != nil {
 				tail := stderr.String()
 				if len(tail) > 2000 {
 					tail = tail[len(tail)-2000:]
